@@ -20,7 +20,7 @@ def setup():
         if not shutil.which(tool):
             print("missing tool", tool)
             ok = False
-    mods = sorted(f[:-4] for f in os.listdir(tlc.SPEC) if f.endswith(".tla"))
+    mods = sorted(f[:-4] for f in os.listdir(tlc.SPEC) if f.endswith(".tla") and f != "MC_SocketInd.tla")  # (Apalache module: not on SANY's path)
     for m in mods:
         good, out = tlc.sany(m)
         print("sany %-16s %s" % (m, "ok" if good else "FAILED"))
